@@ -302,7 +302,13 @@ def run(tier):
             pass
         n_fuzz += 1
         slow = max(slow, time.time() - t0)
-    v.coverage = {"states": rb.distinct + rs.distinct, "transitions": rb.generated + rs.generated,
+    # system texts (spec/SystemScan.tla): text after a mixture specifier, termination of System / Molecule on every piece sequence
+    from . import sysscan
+    sviol, scov = sysscan.run(5 if tier == "quick" else 6)
+    for key, msg in sviol:
+        if key.startswith("C15:"):
+            v.violation(key, msg, {"text": msg})
+    v.coverage = {"system_texts": scov, "states": rb.distinct + rs.distinct + scov["states"], "transitions": rb.generated + rs.generated,
                   "traces_validated_against_impl": n_tok + n_obj,
                   "ill_formed_token_texts": n_tok, "broken_objects": n_obj, "byte_level_mutations_parsed": n_fuzz, "slowest_parse_s": round(slow, 3),
                   "cases_per_rule": rules, "samples": samples}
